@@ -97,7 +97,7 @@ FLAT_MAP = T("HashMap<String, String>", ['(a = "1")'], [], flattenable=True,
              flat_items=[[], ['zz = "1"'], ['extra = "x"', 'more = "y"']])
 
 IDENTS = ["alpha", "beta_gamma", "count", "name", "kind_of", "x1", "max_len", "is_on", "path_to", "label", "lorem_ipsum",
-          "dolor", "sit_amet", "level", "mode", "tag_list", "depth_limit", "v", "w2", "zeta", "r#type", "r#fn"]
+          "dolor", "sit_amet", "level", "mode", "tag_list", "depth_limit", "v", "w2", "zeta", "r#type", "r#fn", "naïve"]
 VIDENTS = ["Alpha", "BetaGamma", "Unit", "NewT", "Conf", "LoremIpsum", "X", "HttpGet", "Other", "Zed", "r#type", "r#move"]
 
 receivers = []   # dicts
@@ -231,7 +231,7 @@ def finish_fields(fields, rule, container_default):
     """effective names and requiredness; None when effective names collide"""
     for f in fields:
         # raw identifiers keep their `r#`; the case rules of the external crate are not mirrored for them here
-        if f["ident"].startswith("r#") and rule is not None and not f.get("rename"):
+        if (f["ident"].startswith("r#") or not f["ident"].isascii()) and rule is not None and not f.get("rename"):
             return False
         f["name"] = f.get("rename") or to_field(rule, f["ident"])
         f["addressable"] = not f["skip"] and not f["flatten"]
@@ -372,50 +372,20 @@ def gen_enum(idx):
             v["ty"] = rng.choice(nested) if nested and rng.random() < 0.3 else rng.choice(LEAVES)
             depth = max(depth, v["ty"].depth)
         elif kind == "struct":
-            fs = []
-            fused = set()
-            vflat = False
-            for j in range(rng.randint(1, 3)):
-                fid = rng.choice([i for i in IDENTS if i not in fused])
-                fused.add(fid)
-                ty = rng.choice(LEAVES)
-                opts = []
-                f = dict(ident=fid, ty=ty, skip=False, multiple=False, flatten=False, elem=None, default=None)
-                if not vflat and rng.random() < 0.2:
-                    cands = [t for t in types_by_name.values() if t.flattenable and t.depth < 3] + [FLAT_MAP]
-                    ty = rng.choice(cands)
-                    f["ty"] = ty
-                    f["flatten"] = True
-                    vflat = True
-                    opts.append("flatten")
-                    f["opts"] = opts
-                    f["name"] = fid
-                    f["addressable"] = False
-                    f["required"] = False
-                    fs.append(f)
-                    depth = max(depth, ty.depth)
-                    continue
-                if rng.random() < (0.6 if vflat else 0.2) and ty.has_default:
-                    f["skip"] = True
-                    opts.append("skip")
-                    f["opts"] = opts
-                    f["name"] = fid
-                    f["addressable"] = False
-                    f["required"] = False
-                    fs.append(f)
-                    continue
-                if rng.random() < 0.2 and ty.has_default:
-                    f["default"] = "bare"
-                    opts.append("default")
-                if rng.random() < 0.15:
-                    f["rename"] = "vf%d" % j
-                    opts.append('rename = "vf%d"' % j)
-                f["opts"] = opts
-                # struct-variant fields are renamed with the enum's rule in its *field* form
-                f["name"] = f.get("rename") or to_field(eff_rule if eff_rule != "kebab-case" else None, fid) if eff_rule != "kebab-case" else (f.get("rename") or fid.replace("_", "-"))
-                f["addressable"] = True
-                f["required"] = f["default"] is None and not ty.optional
-                fs.append(f)
+            # the fields of a struct variant take every field option a struct receiver's fields take
+            if eff_rule == "kebab-case":
+                return None          # kebab-case field names cannot be spelled as identifiers
+            fs, vflat, fdepth = gen_fields(rng.randint(1, 3))
+            if vflat:
+                # make a skipped sibling likely next to a flatten field (suggestions must not offer it)
+                for f in fs:
+                    if not f["flatten"] and not f["skip"] and not f["multiple"] and f["ty"].has_default and rng.random() < 0.4:
+                        f["skip"] = True
+                        f["opts"] = [o for o in f["opts"] if not o.startswith(("rename", "with", "map", "and_then", "default", "skip"))] + ["skip"]
+                        f.pop("rename", None)
+            if not finish_fields(fs, eff_rule, False):
+                return None
+            depth = max(depth, fdepth)
             v["fields"] = fs
         if rng.random() < 0.12:
             v["skip"] = True
